@@ -120,8 +120,8 @@ def case_metadata_codec(inp):
     exp = {int(c): v for c, v in pairs if v is not None}     # None entries dropped
     with tempdir() as d:
         p = os.path.join(d, 'cluster_%s%s' % (field, suffix))
-        M.save_metadata(p, field, mapping)
-        got = M.load_metadata(p)
+        _real(M.save_metadata, p, field, mapping)
+        got = _real(M.load_metadata, p)
     yield '__nontrivial__', len(exp) > 0, ''
     yield 'only-the-saved-field-is-read-back', set(got) <= {field}, sorted(got)
     yield 'field-mapping-round-trips-with-value-types', same_mapping(got.get(field, {}), exp), (got, exp)
@@ -130,6 +130,17 @@ def case_metadata_codec(inp):
 # ----------------------------------------------------------------------------------------------------------
 # case 2: whole histories against the dictionary reference model
 # ----------------------------------------------------------------------------------------------------------
+
+def _real(f, *a, **kw):
+    """Call into phylib.  The case functions are generators, so a StopIteration escaping from phylib (e.g. next() on
+    the csv reader of an empty file) would be turned by PEP 479 into a RuntimeError whose traceback has no /repo frame
+    and the driver would take it for a checker crash.  It is re-raised here with the ORIGINAL traceback so that it is
+    recorded, like every other exception from /repo, as a failure of 'no-unexpected-exception'."""
+    try:
+        return f(*a, **kw)
+    except StopIteration as e:
+        raise RuntimeError('StopIteration escaped from phylib').with_traceback(e.__traceback__) from None
+
 
 def _write_foreign(d, name, body):
     p = os.path.join(d, name)
@@ -228,7 +239,7 @@ def case_history(inp):
         frozen = digest(d)      # every file of the generated dataset
         mutable = {sc_file}
         snap = frozen
-        m = M.load_model(params)
+        m = _real(M.load_model, params)
         after = digest(d)
         yield 'load-leaves-existing-files-byte-identical', not modified(snap, after, ()), ('initial', modified(snap, after, ()))
         snap = after
@@ -239,7 +250,7 @@ def case_history(inp):
             allowed = ()
             if kind == 'sc':
                 arr = np.asarray(op[1], dtype=op[2])
-                m.save_spike_clusters(arr)
+                _real(m.save_spike_clusters, arr)
                 ref['sc'] = np.asarray(op[1], dtype=np.int64)
                 allowed = (sc_file,)
                 on_disk = np.load(os.path.join(d, sc_file))
@@ -249,7 +260,7 @@ def case_history(inp):
             elif kind == 'md':
                 field, pairs = op[1], op[2]
                 keyf = np.int64 if (len(op) > 3 and op[3] == 'np') else int
-                m.save_metadata(field, {keyf(c): v for c, v in pairs})
+                _real(m.save_metadata, field, {keyf(c): v for c, v in pairs})
                 ref['meta'][field] = {int(c): v for c, v in pairs}
                 allowed = ('cluster_%s.tsv' % field,)
                 mutable.add(allowed[0])
@@ -272,7 +283,7 @@ def case_history(inp):
                     kw['max_n_channels'] = mnc
                 if s2u is not None:
                     kw['sample2unit'] = s2u
-                m.save_spikes_subset_waveforms(max_n_spikes_per_template=nst, **kw)
+                _real(m.save_spikes_subset_waveforms, max_n_spikes_per_template=nst, **kw)
                 if T['params']['raw']:
                     ref['store'] = {'factor': 1.0 if s2u is None else s2u, 'nst': nst, 'mnc': mnc}
                     exist = [os.path.exists(os.path.join(d, f)) for f in STORE]
@@ -281,13 +292,13 @@ def case_history(inp):
                 mutable.update(STORE)
                 fresh = False
             elif kind == 'close':
-                m.close()
+                _real(m.close)
                 closed = True
                 fresh = False
             elif kind == 'reload':
                 if fresh and len(op) > 1:
                     continue        # the final reload right after a checked reload adds nothing
-                m = M.load_model(params)
+                m = _real(M.load_model, params)
                 closed = False
                 yield from _check_loaded(m, T, ref, step)
                 fresh = True
@@ -376,7 +387,7 @@ def reassignments(st, nt, rng):
             r1.append(t)
     r2 = [rng.randrange(0, nt + 3) for _ in st]                                  # arbitrary relabelling
     r3 = list(st)                                                                # back to the templates
-    r4 = [5] * len(st)                                                           # everything in one cluster
+    r4 = [1000] * len(st)                                                        # everything in one (high) cluster id
     return [r0, r1, r2, r3, r4]
 
 
@@ -387,8 +398,8 @@ GROUP = [
     [[0, 'a b'], [7, 'é'], [12, ' lead '], [3, 'unsorted']],
 ]
 QUALITY = [
-    [[0, 3], [1, 2.5], [4, -1], [2, 1e-07]],
-    [[3, 7.0], [0, 10 ** 12], [1, None], [6, -0.125]],     # 7.0 must stay a float
+    [[0, 3], [1, 2.5], [4, -1], [2, 1e-07], [3, 0]],
+    [[3, 7.0], [0, 10 ** 12], [1, None], [6, -0.125], [2, 0.0]],     # 7.0 / 0.0 must stay floats, 0 is not None
     [[0, 'good'], [1, 3], [2, 1.5]],                       # mixed types in one field
 ]
 
@@ -401,10 +412,10 @@ FOREIGN_VALID = [
     # (file name, text, expected {field: pairs})
     ('cluster_KSLabel.tsv', _table('\t', ['cluster_id', 'KSLabel'], [['0', 'good'], ['1', 'mua'], ['4', 'good']]),
      {'KSLabel': [[0, 'good'], [1, 'mua'], [4, 'good']]}),
-    # two fields, comma separated, an empty cell (dropped), a repeated id (later row wins), CRLF line ends
+    # two fields, comma separated, empty cells (dropped), CRLF line ends
     ('extra.csv', _table(',', ['cluster_id', 'Amplitude', 'ContamPct'],
-                         [['0', '12.5', '3'], ['2', '', '100.0'], ['3', '7.25', ''], ['0', '13.5', '4']], eol='\r\n'),
-     {'Amplitude': [[0, 13.5], [3, 7.25]], 'ContamPct': [[0, 4], [2, 100.0]]}),
+                         [['0', '12.5', '3'], ['2', '', '100.0'], ['3', '7.25', ''], ['11', '13.5', '4']], eol='\r\n'),
+     {'Amplitude': [[0, 12.5], [3, 7.25], [11, 13.5]], 'ContamPct': [[0, 3], [2, 100.0], [11, 4]]}),
     # the id column is not the first one, no trailing newline
     ('cluster_depth.tsv', _table('\t', ['depth', 'cluster_id'], [['10.0', '2'], ['-35.5', '0']]).rstrip('\n'),
      {'depth': [[2, 10.0], [0, -35.5]]}),
